@@ -18,6 +18,12 @@
 //!       `o<p>` open with password p, `m` open with the master key.  -> `ok <result per o/m>` (`ok` | `err:Kind`)
 //!  * `scan <seed>`         oracle only (model: `ok`): backups + prune history with planted needles (names, contents, json
 //!       field names); no stored non-key file may contain a needle; all nonces (files, blobs, pack headers) pairwise distinct.
+//!  * `hist <seed>`         oracle only: a seeded command history (backup / merge / forget+prune / prune --repack-all / repair
+//!       index --read-all / config change / key add) with needles in file names, directory names, symlink targets, contents,
+//!       host, label, tags, description and command line; after EVERY command every stored file of every non-key type — and
+//!       every file a command removed, captured at the moment of its removal — is scanned for the needles and for JSON
+//!       field names; key files must never contain the master key's secret strings; all four non-key file types must have
+//!       been seen.  -> `ok` | `oracle-fail:plaintext-in-<type>-after-<cmd>` | …
 //!  * `tamper <seed>`       oracle only: every stored non-key file × {bit flips at first/last/middle/random positions,
 //!       truncation, extension}: the affected read fails or returns the original content, never other content.
 //!  * `swap snapshot <seed>` exchange the stored bytes of two snapshot files and read the first id: returns the second
@@ -116,9 +122,26 @@ pub fn generate(thorough: bool, rng: &mut Rng, ops: &mut Vec<String>, stats: &mu
         stats.hit("keys.script");
         ops.push(format!("c04 keys {}", s.join(",")));
     }
+    // open attempts around key removal: right / wrong / removed passwords, the same password under two key files,
+    // removal of the first / last / only added key, master key throughout
+    for _ in 0..(if thorough { 40 } else { 6 }) {
+        let (p, q, w) = (rng.below(4), rng.below(4), 4 + rng.below(3));
+        let shape = match rng.below(4) {
+            0 => format!("a{p},a{q},o{p},o{q},o{w},r0,o{p},o{q},o{w},m,r1,o{p},o{q},m"),
+            1 => format!("a{p},a{p},o{p},r0,o{p},r1,o{p},o{w},m"),
+            2 => format!("a{p},o{p},r0,o{p},m,a{q},o{q},o{p},r1,o{q},m"),
+            _ => format!("a{p},a{q},a{w},r1,o{q},o{p},o{w},r2,o{w},o{p},r0,o{p},m"),
+        };
+        stats.hit("keys.removal-script");
+        ops.push(format!("c04 keys {shape}"));
+    }
     for _ in 0..(if thorough { 40 } else { 3 }) {
         ops.push(format!("c04 scan {}", rng.below(1 << 40)));
         stats.hit("scan");
+    }
+    for _ in 0..(if thorough { 300 } else { 24 }) {
+        ops.push(format!("c04 hist {}", rng.below(1 << 40)));
+        stats.hit("hist");
     }
     for _ in 0..(if thorough { 25 } else { 2 }) {
         ops.push(format!("c04 tamper {}", rng.below(1 << 40)));
@@ -574,6 +597,178 @@ fn exec_scan(seed: u64) -> String {
     "ok".into()
 }
 
+
+// ------------------------------------------------------------------ hist: scan after every command
+
+const NEEDLES2: [&[u8]; 3] = [b"NEEDLE-DESC-aa11", b"NEEDLE-CMD-bb22", b"NEEDLE-TAG2-cc33"];
+
+fn scan_one(tpe: FileType, bytes: &[u8], secrets: &[Vec<u8>]) -> Result<(), String> {
+    if tpe == FileType::Key {
+        // key files are plaintext JSON by design; they must not expose the master key
+        for sct in secrets {
+            if contains(bytes, sct) {
+                return Err("oracle-fail:master-key-in-key-file".into());
+            }
+        }
+        return Ok(());
+    }
+    for n in NEEDLES.iter().chain(NEEDLES2.iter()).chain(JSON_FIELDS.iter()) {
+        if contains(bytes, n) {
+            return Err(format!("oracle-fail:plaintext-in-{}", repo::ft_name(tpe)));
+        }
+    }
+    for sct in secrets {
+        if contains(bytes, sct) {
+            return Err(format!("oracle-fail:master-key-in-{}", repo::ft_name(tpe)));
+        }
+    }
+    Ok(())
+}
+
+/// the base64 strings of the serialised master key (what a key file wraps)
+fn master_secrets(h: &RepoHandle) -> Vec<Vec<u8>> {
+    let mut out = Vec::new();
+    if let Ok(v) = serde_json::to_value(&h.key) {
+        fn walk(v: &serde_json::Value, out: &mut Vec<Vec<u8>>) {
+            match v {
+                serde_json::Value::String(s) if s.len() >= 16 => out.push(s.as_bytes().to_vec()),
+                serde_json::Value::Object(m) => m.values().for_each(|x| walk(x, out)),
+                serde_json::Value::Array(a) => a.iter().for_each(|x| walk(x, out)),
+                _ => {}
+            }
+        }
+        walk(&v, &mut out);
+    }
+    out
+}
+
+fn exec_hist(seed: u64) -> String {
+    let mut rng = Rng::new(seed);
+    let mut cfg = ConfigOptions::default();
+    match rng.below(3) {
+        0 => cfg.set_compression = Some(0),
+        1 => cfg.set_compression = Some(-3),
+        _ => {}
+    }
+    cfg.set_datapack_size = Some(bytesize::ByteSize::kib(rng.range(4, 32)));
+    cfg.set_treepack_size = Some(bytesize::ByteSize::kib(rng.range(1, 4)));
+    let be = MemBackend::new();
+    // every file a command removes is kept for the scan
+    let removed: Arc<std::sync::Mutex<Vec<(FileType, Bytes)>>> = Arc::new(std::sync::Mutex::new(Vec::new()));
+    {
+        let (r2, b2) = (removed.clone(), be.clone());
+        be.set_gate(Some(Arc::new(move |_k, op: &repo::LogOp| {
+            if !op.write {
+                if let Some(c) = b2.get(op.tpe, &op.id) {
+                    r2.lock().unwrap().push((op.tpe, c));
+                }
+            }
+        })));
+    }
+    let (h, _r) = match RepoHandle::init_oc(be, None, &cfg) {
+        Ok(x) => x,
+        Err(e) => return errkind(&e),
+    };
+    let secrets = master_secrets(&h);
+    if secrets.is_empty() {
+        return "oracle-fail:no-master-secret-strings".into();
+    }
+    let mut seen = [0usize; 5];
+    let mut scan = |h: &RepoHandle, cmd: &str, seen: &mut [usize; 5]| -> Result<(), String> {
+        for ((t, _id), bytes) in &h.be.store() {
+            seen[*t as usize] += 1;
+            scan_one(repo::FILE_TYPES[*t as usize], bytes, &secrets).map_err(|e| format!("{e}-after-{cmd}"))?;
+        }
+        for (tpe, bytes) in removed.lock().unwrap().drain(..) {
+            seen[repo::ft_idx(tpe) as usize] += 1;
+            scan_one(tpe, &bytes, &secrets).map_err(|e| format!("{e}-removed-by-{cmd}"))?;
+        }
+        Ok(())
+    };
+    // a key file (the handle opens with the master key; `init` with a master key writes none)
+    if let Err(e) = plant_key(&h, "pw-init", &mut rng) {
+        return e;
+    }
+    if let Err(e) = scan(&h, "init", &mut seen) {
+        return e;
+    }
+    let mut snaps: Vec<SnapshotFile> = Vec::new();
+    let n_cmds = 4 + rng.below(5);
+    let mut round = 0u64;
+    for step in 0..n_cmds {
+        let cmd = if step == 0 || snaps.is_empty() { "backup" } else { *rng.pick(&["backup", "backup", "merge", "forget-prune", "prune-all", "repair-index", "config", "key"]) };
+        let res: Result<(), String> = (|| {
+            match cmd {
+                "backup" => {
+                    let src = needle_source(&mut rng, round);
+                    round += 1;
+                    let mut o = snapshot_opts().description("NEEDLE-DESC-aa11 text".to_string()).command("NEEDLE-CMD-bb22 --flag".to_string());
+                    o = o.tags(vec!["NEEDLE-TAG2-cc33".parse().map_err(|_| "oracle-fail:tag-parse".to_string())?]);
+                    let snap = o.to_snapshot().map_err(|e| errkind(&e))?;
+                    let r = h.open_oc().map_err(|e| errkind(&e))?.to_indexed_ids().map_err(|e| errkind(&e))?;
+                    snaps.push(r.archive(&BackupOptions::default(), &src, snap, &[std::path::PathBuf::from(repo::SRC_ROOT)]).map_err(|e| errkind(&e))?);
+                }
+                "merge" => {
+                    let repo = h.open_oc().map_err(|e| errkind(&e))?.to_indexed_ids().map_err(|e| errkind(&e))?;
+                    let snap = snapshot_opts().to_snapshot().map_err(|e| errkind(&e))?;
+                    let m = repo
+                        .merge_snapshots(&snaps, &|a: &rustic_core::repofile::Node, b: &rustic_core::repofile::Node| a.meta.mtime.cmp(&b.meta.mtime), snap)
+                        .map_err(|e| errkind(&e))?;
+                    snaps.push(m);
+                }
+                "forget-prune" | "prune-all" => {
+                    if cmd == "forget-prune" && snaps.len() > 1 {
+                        let repo = h.open_oc().map_err(|e| errkind(&e))?;
+                        let sn = snaps.remove(0);
+                        repo.delete_snapshots(&[sn.id]).map_err(|e| errkind(&e))?;
+                    }
+                    let mut o = PruneOptions::default();
+                    o.keep_pack = rustic_core::jiff::Span::new();
+                    o.keep_delete = rustic_core::jiff::Span::new();
+                    o.max_unused = LimitOption::Percentage(0);
+                    o.max_repack = LimitOption::Unlimited;
+                    o.repack_all = cmd == "prune-all";
+                    o.instant_delete = rng.chance(1, 2);
+                    let repo = h.open_oc().map_err(|e| errkind(&e))?;
+                    let plan = repo.prune_plan(&o).map_err(|e| errkind(&e))?;
+                    repo.prune(&o, plan).map_err(|e| errkind(&e))?;
+                }
+                "repair-index" => {
+                    let repo = h.open_oc().map_err(|e| errkind(&e))?;
+                    repo.repair_index(&rustic_core::RepairIndexOptions::default().read_all(true), false).map_err(|e| errkind(&e))?;
+                }
+                "config" => {
+                    let mut repo = h.open_oc().map_err(|e| errkind(&e))?;
+                    let mut c = ConfigOptions::default();
+                    c.set_compression = Some(*rng.pick(&[0, 1, 3, -2, 9]));
+                    _ = repo.apply_config(&c).map_err(|e| errkind(&e))?;
+                }
+                "key" => {
+                    _ = plant_key(&h, "pw-hist", &mut rng)?;
+                }
+                _ => return Err("bad-op".into()),
+            }
+            Ok(())
+        })();
+        if let Err(e) = res {
+            return format!("{e}-in-{cmd}");
+        }
+        if let Err(e) = scan(&h, cmd, &mut seen) {
+            return e;
+        }
+    }
+    for t in [FileType::Config, FileType::Index, FileType::Snapshot, FileType::Pack, FileType::Key] {
+        if seen[repo::ft_idx(t) as usize] == 0 {
+            return format!("oracle-fail:scan-saw-no-{}", repo::ft_name(t));
+        }
+    }
+    // the history must leave a readable repository (otherwise "nothing readable in storage" would be vacuous)
+    match read_everything(&h, &snaps) {
+        Ok(_) => "ok".into(),
+        Err(e) => format!("oracle-fail:history-unreadable:{e}"),
+    }
+}
+
 fn read_everything(h: &RepoHandle, snaps: &[SnapshotFile]) -> Result<Vec<Vec<repo::ReadBack>>, String> {
     let repo = h.open_nocache().map_err(|e| errkind(&e))?.to_indexed().map_err(|e| errkind(&e))?;
     let ids: Vec<String> = snaps.iter().map(|s| s.id.to_hex().to_string()).collect();
@@ -746,6 +941,7 @@ pub fn exec(t: &[&str]) -> String {
         },
         ["keys", script] => exec_keys(script),
         ["scan", seed] => seed.parse::<u64>().map_or("bad-op".into(), exec_scan),
+        ["hist", seed] => seed.parse::<u64>().map_or("bad-op".into(), exec_hist),
         ["tamper", seed] => seed.parse::<u64>().map_or("bad-op".into(), exec_tamper),
         ["swap", "snapshot", seed] => seed.parse::<u64>().map_or("bad-op".into(), exec_swap),
         _ => "bad-op".into(),
